@@ -20,6 +20,18 @@ for sid in sorted(os.listdir(root)):
     if os.path.exists(os.path.join(d, 'confirm.log')):
         lines = open(os.path.join(d, 'confirm.log')).read().strip().split('\n')
         conf = next((l for l in reversed(lines) if l.startswith('RESULT')), '')
+    notes = open(os.path.join(d, 'agent_notes.md')).read() if os.path.exists(os.path.join(d, 'agent_notes.md')) else ''
+    if not am and notes:
+        # round-3 seeds: the sub-agent wrote notes.md instead of a JSON description
+        def section(*names):
+            for nme in names:
+                m2 = re.search(r'^#+\s*' + nme + r'[^\n]*\n(.*?)(?=^#+\s|\Z)', notes, re.S | re.M | re.I)
+                if m2:
+                    return m2.group(1).strip()[:1500]
+            return ''
+        am = {'summary': (section('Change', 'The change', 'What') or notes.strip()[:1200]),
+              'mechanism': section('Why it breaks', 'Why', 'Effect'),
+              'needs': section('Input needed', 'What it needs', 'Needs', 'Manifest', 'Schedule') or 'see agent_notes.md'}
     prop = sid.split('-')[0]
     m = matrix.get(sid, {})
     applies = m.get('_applies', True)
@@ -42,6 +54,13 @@ for sid in sorted(os.listdir(root)):
         "own_property_rules_fired": own.get('rules', []),
         "other_checks_that_also_fired": others,
     }
+    missed = {"C01-C": "C01-R1 (one-read test only for the first read)", "C05-D": "C05-R7", "C07-C": "C07-R7", "C07-D": "C07-R6", "C08-C": "C08-R8",
+              "C10-D": "C10-R7", "C11-D": "C11-R6", "C13-C": "C13-R4 (half-close not delayed)", "C18-D": "C18-R4 (refusal not narrowed)", "C20-C": "C20-R1 (cleanup removes only the temporary file)", "C20-B": "C20-R1 (success means written)"}
+    if sid in missed:
+        meta["missed_when_first_run"] = True
+        meta["check_strengthened_with"] = missed[sid]
+    if os.path.exists(os.path.join(d, 'agent_demo_output.txt')):
+        meta["demonstration"] = (meta["demonstration"] + " ; sub-agent's run: agent_demo_output.txt").strip(' ;')
     if not applies:
         meta["note"] = "the patch no longer applies to /repo HEAD because a later fix: commit changed the same lines (for C08-A: cdf0516 refuses duplicate uPSKs, which also masks this change's effect); it was confirmed against the tree it was written for"
     json.dump(meta, open(os.path.join(d, 'meta.json'), 'w'), indent=1)
